@@ -16,6 +16,11 @@ pub struct Aug {
     pub nterm: usize,
     nullable: Vec<bool>,
     first: Vec<u32>, // bitset of terminals per nt
+    /// variant semantics: keep closure items whose lookahead set is empty (pseudo-lookahead
+    /// `none`), which is what an implementation with lookahead *sets* per item does when a
+    /// nonterminal after the dot is followed by an unproductive one.
+    pub keep_empty: bool,
+    pub none: u8,
 }
 
 fn tidx(a: &Aug, s: Sym) -> Option<u8> {
@@ -39,7 +44,7 @@ impl Aug {
         }
         let eof = g.terms as u8;
         let err = g.terms as u8 + 1;
-        let mut a = Aug { prods, by_nt, nts, eof, err, nterm: g.terms + 2, nullable: vec![false; nts], first: vec![0; nts] };
+        let mut a = Aug { prods, by_nt, nts, eof, err, nterm: g.terms + 3, nullable: vec![false; nts], first: vec![0; nts], keep_empty: false, none: g.terms as u8 + 2 };
         loop {
             let mut ch = false;
             for (n, r) in a.prods.clone().iter() {
@@ -101,7 +106,10 @@ impl Aug {
             let rhs = &self.prods[p as usize].1;
             if (d as usize) < rhs.len() {
                 if let Sym::N(m) = rhs[d as usize] {
-                    let f = self.first_seq(&rhs[d as usize + 1..], la);
+                    let mut f = self.first_seq(&rhs[d as usize + 1..], la);
+                    if f == 0 && self.keep_empty {
+                        f = 1 << self.none;
+                    }
                     for &q in &self.by_nt[m as usize] {
                         for t in 0..self.nterm as u8 {
                             if f & (1 << t) != 0 {
@@ -176,7 +184,7 @@ fn state_conflict(a: &Aug, items: &BTreeSet<Item>) -> Option<Conflict> {
             if let Some(t) = tidx(a, rhs[d as usize]) {
                 shift |= 1 << t;
             }
-        } else {
+        } else if la != a.none {
             red.entry(la).or_default().insert(p);
         }
     }
@@ -213,9 +221,13 @@ pub struct Verdict {
 }
 
 pub fn verdict(g: &Cfg) -> Verdict {
+    verdict_opt(g, false)
+}
+pub fn verdict_opt(g: &Cfg, keep_empty: bool) -> Verdict {
     let mut v = Verdict { lr1: None, lalr: None, lr1_states: 0, lr0_states: 0 };
     for &s in &g.pubs {
-        let a = Aug::new(g, s);
+        let mut a = Aug::new(g, s);
+        a.keep_empty = keep_empty;
         let m = build_lr1(&a);
         v.lr1_states += m.states.len();
         let cores: BTreeSet<BTreeSet<(u16, u8)>> = m.states.iter().map(|s| s.iter().map(|(p, d, _)| (*p, *d)).collect()).collect();
